@@ -61,7 +61,111 @@ pub fn with_hang_guard<T: Send + 'static>(what: &str, secs: u64, f: impl FnOnce(
     }
 }
 
+/// Bucket-exhaustion family: a store with a tiny merkle page table is grown commit by commit (each batch
+/// opens new 6-bit / 12-bit key prefixes, i.e. new stored merkle pages) until a page allocation fails.
+fn run_exhaustion<H: HK>(case: &FaultCase, ctx: &Ctx) -> Result<CaseInfo, Violation> {
+    use crate::util::SplitMix;
+    let mut info = CaseInfo::default();
+    let rec = Recorder::install();
+    rec.unwatch();
+    let mut s = SplitMix(case.choice_seed ^ 0xe8a5);
+    let mut cfg = case.hist.cfg.clone();
+    cfg.buckets = [8u32, 12, 16, 24, 32, 40, 64, 96, 130][s.below(9) as usize];
+    cfg.preallocate = false;
+    cfg.fs = Fs::Tmpfs;
+    let dir = ctx.scratch.dir(cfg.fs);
+    let v = |step: usize, m: String| Violation { step, msg: m };
+    let db = std::sync::Arc::new(Db::<H>::open(&dir, &cfg).map_err(|f| v(0, f.sig()))?);
+    let mut model = Model::new(H::KIND, cfg.rollback, cfg.max_log as usize);
+    let mut next_prefix: u16 = s.below(64) as u16;
+    for i in 0..48usize {
+        // a batch that needs new pages: a few new root children (depth-1 pages), sometimes a deep cluster
+        let mut batch: std::collections::BTreeMap<Key, MOp> = std::collections::BTreeMap::new();
+        for _ in 0..(1 + s.below(4)) {
+            let p = (next_prefix % 64) as u8;
+            next_prefix = next_prefix.wrapping_add(1 + s.below(3) as u16);
+            let n = if s.below(5) == 0 { 22 + s.below(10) } else { 2 + s.below(3) };
+            let second: u8 = s.below(64) as u8;
+            for _ in 0..n {
+                let mut k = s.key();
+                k[0] = (p << 2) | (second >> 4);
+                if n > 20 {
+                    k[1] = (second << 4) | (k[1] & 0x0f); // 12 common bits: a depth-2 page beyond the elision threshold
+                }
+                batch.insert(k, MOp::Write(Some(std::sync::Arc::new(crate::util::value_bytes(&k, i as u32 + 1, 10 + s.below(60) as usize)))));
+            }
+        }
+        // and some deletions so that tombstones exist
+        if i % 3 == 2 {
+            for k in model.keys().into_iter().take(6) {
+                batch.entry(k).or_insert(MOp::Write(None));
+            }
+        }
+        let batch: Vec<(Key, MOp)> = batch.into_iter().collect();
+        let pre = model.clone();
+        let mut post = model.clone();
+        post.commit(&batch);
+        let op = std::sync::Arc::new(OpUnderTest::Commit { batch: batch.clone(), overlay: i % 4 == 3, nonblocking: i % 5 == 4, opts: CommitOpts::default() });
+        let (db2, pre2, op2) = (db.clone(), std::sync::Arc::new(pre.clone()), op.clone());
+        let res = with_hang_guard("commit on a store whose merkle page table is (nearly) full", 60, move || exec(&db2, &pre2, &op2));
+        match res {
+            Ok(()) => {
+                if db.root() != post.root() {
+                    return Err(v(i, format!("commit #{i} on a {}-bucket table returned Ok but the root is not the model's", cfg.buckets)));
+                }
+                let u = db.nomt.hash_table_utilization();
+                info.max("max_occupied_percent", (u.occupied * 100 / u.capacity.max(1)) as u64);
+                model = post;
+                continue;
+            }
+            Err(f) if f.kind == FailKind::Panic => {
+                return Err(v(i, format!("commit #{i} on a {}-bucket table ({} occupied) panicked instead of reporting bucket exhaustion: {}", cfg.buckets, db.nomt.hash_table_utilization().occupied, f.msg)))
+            }
+            Err(f) if !f.is_bucket_exhaustion() => {
+                return Err(v(i, format!("commit #{i} on a {}-bucket table fails without any injected fault and not with bucket exhaustion: {}", cfg.buckets, f.sig())))
+            }
+            Err(_) => {}
+        }
+        info.bump("bucket_exhaustion_reported");
+        info.add("exhausted_at_commit", i as u64);
+        if !db.nomt.is_poisoned() {
+            return Err(v(i, "bucket exhaustion: the commit returned an error but the handle does not report itself poisoned".into()));
+        }
+        let kx = [0x42u8; 32];
+        let small = vec![(kx, MOp::Write(Some(std::sync::Arc::new(vec![1u8]))))];
+        let db3 = db.clone();
+        let pre3 = pre.clone();
+        let again = with_hang_guard("commit on a handle poisoned by bucket exhaustion", 60, move || db3.commit_batch(&pre3.cur, &small, &CommitOpts::default()));
+        match again {
+            Ok(_) => return Err(v(i, "bucket exhaustion: a further commit on the poisoned handle succeeded".into())),
+            Err(f) if f.kind == FailKind::Panic => return Err(v(i, format!("bucket exhaustion: a further commit on the poisoned handle panicked: {}", f.msg))),
+            Err(_) => {}
+        }
+        let dropped = with_hang_guard("drop(Nomt) after bucket exhaustion", 60, move || match std::sync::Arc::try_unwrap(db) {
+            Ok(d) => d.close().map_err(|f| f.sig()),
+            Err(_) => Err("handle still shared".to_string()),
+        });
+        dropped.map_err(|e| v(i, format!("bucket exhaustion: dropping the handle: {e}")))?;
+        let ictx = ImgCtx { cfg: &cfg, pre: &pre, post: &post, salt: case.choice_seed };
+        // deep 0/1 only: a further commit on the reopened (still full) table would rightly fail again
+        let w = crash::verify_dir::<H>(&dir, &ictx, None, 1, "bucket exhaustion; reopening").map_err(|m| v(i, m))?;
+        info.bump(&format!("reopen_after_exhaustion_{w:?}"));
+        hist::rm(&dir);
+        info.nontrivial = true;
+        return Ok(info);
+    }
+    info.bump("table_never_exhausted");
+    if let Ok(d) = std::sync::Arc::try_unwrap(db) {
+        let _ = d.close();
+    }
+    hist::rm(&dir);
+    Ok(info)
+}
+
 fn run_case<H: HK>(case: &FaultCase, ctx: &Ctx) -> Result<CaseInfo, Violation> {
+    if case.choice_seed % 4 == 0 {
+        return run_exhaustion::<H>(case, ctx);
+    }
     let mut hist_owned = case.hist.clone();
     // op under test: the last commit / rollback step
     while matches!(hist_owned.steps.last(), Some(Step::Reopen(_))) {
@@ -243,7 +347,11 @@ impl Check for C14 {
          directory, for every k < N (evenly strided above the point budget) the k-th operation is made to fail once and persistently (from k on) with EIO / ENOSPC through \
          the hook (nothing is written). Oracle when the fault fired: the call returns Err (Ok = swallowed failure; panic = violation; no return within 90 s = hang), \
          is_poisoned() is true, a further commit returns Err, dropping the handle terminates, and reopening without faults shows exactly the pre or the post state (root, \
-         seqn, all values, proofs). evaluations = cases; non-trivial = case in which >= 2 injected faults fired; labels give the (file class x kind) matrix".into()
+         seqn, all values, proofs). A quarter of the cases form the BUCKET-EXHAUSTION family instead: a store with 8..130 hash-table buckets is grown commit by commit (batches opening new \
+         6-bit / 12-bit key prefixes = new stored merkle pages, plus deletions leaving tombstones; session / overlay, blocking / non-blocking) until a page allocation fails: every \
+         commit before must agree with the model; the failing one must return the bucket-exhaustion error (no panic, no other error, no hang within 60 s), poison the handle, refuse a \
+         further commit, drop cleanly, and the directory must reopen to exactly pre or post. evaluations = cases; non-trivial = case in which >= 2 injected faults fired or the table was \
+         exhausted; labels give the (file class x kind) matrix".into()
     }
     fn assumptions() -> Vec<String> {
         vec![
